@@ -155,15 +155,14 @@ Proof. exact arp_permutation. Qed.
 Print Assumptions C10_arp_arrangement.
 Print Assumptions C10_arp_permutation.
 
-(* OPEN.  The remaining classes of Pat/Step.v have their reference definition in Pat/Ref.v (ref_loop
-   ref_pingpong ref_subsequence ref_reverse ref_pad_to_multiple ref_concatenate) and are compared with the
+(* OPEN.  The remaining classes of Pat/Step.v have their reference definition in Pat/Ref.v (ref_pingpong
+   ref_reverse ref_concatenate) and are compared with the
    implementation on every run (reference interpreter of the harness + model comparison), but the induction is not
    done.  Full statement, e.g.:
      forall f c l count, l <> [] -> Den f c (Fin l) -> (0 < count)%nat ->
        Den (S (S f)) (PLoop (AP c) (VInt (Z.of_nat count)) 0 0 false []) (Fin (ref_loop count l))
-   and likewise PPingPong, PSubsequence,
-   PReverse, PPadToMultiple, PConcatenate, PReset.
-   (PImpulse, PCounter, PWrap, PNoRepeats, PCollapse are proved in Props/C10More.v.)
+   (that one is C10_loop now) and likewise PPingPong, PReverse, PConcatenate, PReset.
+   (PImpulse, PCounter, PWrap, PNoRepeats, PCollapse, PPadToMultiple, PLoop, PSubsequence are proved in Props/C10More.v.)
    What is proved here is only that the closed forms and the model agree on one concrete instance of each. *)
 Definition outs (fuel n : nat) (e : pexpr) : list (outcome val) :=
   match init Val.binop 100 fuel e with
